@@ -228,7 +228,9 @@ ValAtoms(v, f, cast, obj) ==
        IF IsNone(fv) THEN {{"M"}}
        ELSE IF fv.t = "O" THEN MapAtoms(v.es, fv)
        ELSE IF fv.t = "A" /\ \A i \in DOMAIN fv.vs : fv.vs[i].t = "O"
-            THEN UNION {MapAtoms(v.es, fv.vs[i]) : i \in DOMAIN fv.vs} \cup {{"F"}}
+            \* the block's own result is an atom too: over an EMPTY array it is left open (false or
+            \* missing) although there is no element whose predicates could be indefinite
+            THEN UNION {MapAtoms(v.es, fv.vs[i]) : i \in DOMAIN fv.vs} \cup {{"F"}} \cup {EvalVal(v, f, cast, obj)}
        ELSE {FM}
   ELSE {EvalVal(v, f, cast, obj)}
 (* a quantifier is an "atom" too: of(.., n) whose count is not reached yields a non-true value    *)
